@@ -699,6 +699,7 @@ def check_c17(prog, rep, tier, cfg):
     c17b(prog, rep)
     c17c(prog, rep)
     c17d(prog, rep)
+    c17g(prog, rep)
     # C17.e — "the bytes written equal BOM + encode(..)": what is left in the file is exactly what write_file produced — rewritten from
     # offset 0 and cut to the returned length on every success path, whatever the lengths of the old and new text (shared with C16.b)
     c16b(prog, rep, "C17.e")
@@ -893,6 +894,36 @@ def c17c(prog, rep):
     rep.check(bool(okp) and all(x[0] == "call" and x[2] in allowed for x in okp), R, "ok-payload-is-an-encoder's-output",
               "encode() can return Ok bytes that were not produced by the encoder of the file's encoding (origins: %s) — e.g. the text's UTF-8 bytes handed out unchanged" % names,
               where="%s:%d" % (e.file, e.line), instance={"ok_payload_origins": names})
+
+
+LOSSY_OR_CUTTING = ("convert_utf8_to_utf16", "convert_utf8_to_utf16_without_replacement", "from_utf8_lossy", "convert_str_to_utf16", "chunks", "chunks_exact", "rchunks", "windows",
+                    "split_at", "split_at_checked", "split_off", "truncate", "get", "get_unchecked")
+
+
+def c17g(prog, rep):
+    """C17.g — the hand-written UTF-16 encoder is total and exact: its code units are those of `str::encode_utf16()` over the whole
+    text (the standard library's lossless iterator), each turned into two bytes by the byte-order function, and nothing in the
+    encoder cuts the text's UTF-8 bytes at positions of its own or converts them with a replacing routine (a character that
+    straddles such a cut is written as U+FFFD without any error)."""
+    R = "C17.g"
+    b = prog.body(FF + "encode_utf16")
+    if not rep.check(b is not None, R, "anchor:encode_utf16", "encode_utf16 not found"):
+        return
+    fam = [b] + [x for x in prog.bodies.values() if x.npath.startswith(b.npath + "::")]
+    src = [c for x in fam for c in x.calls() if (c.callee or "") == "core::str::encode_utf16"]
+    whole = [c for c in src if canon(c.body, c.args[0]) in ("arg1", "deref(arg1)")]
+    rep.check(len(whole) >= 1, R, "code-units-from-str::encode_utf16", "encode_utf16 no longer takes its code units from `data.encode_utf16()` over the whole text (found %s)"
+              % [canon(c.body, c.args[0])[:40] for c in src], where="%s:%d" % (b.file, b.line), instance={"sources": len(src)})
+    bad = []
+    for x in fam:
+        for c in x.calls():
+            nm = (c.callee or "").split("::")[-1]
+            if nm in LOSSY_OR_CUTTING and not (c.callee or "").startswith("alloc::vec::Vec"):
+                bad.append("%s" % (c.callee or "?"))
+    rep.check(not bad, R, "no-cutting-or-replacing-conversion", "the UTF-16 encoder cuts the text at byte positions of its own or converts it with a replacing routine (%s): a character that straddles a "
+              "cut is written as U+FFFD and the file is rewritten without any error" % sorted(set(bad))[:3], where="%s:%d" % (b.file, b.line), instance={"calls": sorted(set(bad))[:5]})
+    ext = [c for x in fam for c in x.calls() if (c.callee or "").split("::")[-1] in ("extend", "flat_map", "push", "extend_from_slice")]
+    rep.floor(R, "building operations of the UTF-16 encoder", len(ext), 1)
 
 
 def c17d(prog, rep):
